@@ -135,6 +135,13 @@ func (p *H264Payloader) Payload(mtu uint16, payload []byte) [][]byte { //nolint:
 				out := make([]byte, len(stapANalu))
 				copy(out, stapANalu)
 				payloads = append(payloads, out)
+			} else {
+				// the pair does not fit one packet: send the parameter sets as ordinary NAL units
+				// (single NAL unit packets or FU-A) instead of dropping them
+				plain := &H264Payloader{DisableStapA: true}
+				for _, held := range [][]byte{p.spsNalu, p.ppsNalu} {
+					payloads = append(payloads, plain.Payload(mtu, append(append([]byte{}, naluStartCode...), held...))...)
+				}
 			}
 
 			p.spsNalu = nil
